@@ -454,7 +454,11 @@ class Ctx:
         ev = {"property_id": self.pid, "tier": self.tier, "seed": self.seed, "level": level,
               "coverage": cov, "assumptions": self.assumptions,
               "wall_s": round(time.time() - self.t0, 2), "violations": len(self.violations)}
-        with open(os.path.join(VERIF, "evidence", f"{self.pid}.json"), "w") as f:
+        # evidence/ holds runs against /repo itself only; runs pointed elsewhere (VERIF_REPO) go to the cache
+        evdir = os.path.join(VERIF, "evidence") if REPO == "/repo" else os.path.join(CACHE, "evidence-scratch")
+        os.makedirs(evdir, exist_ok=True)
+        ev["repo"] = REPO
+        with open(os.path.join(evdir, f"{self.pid}.json"), "w") as f:
             json.dump(ev, f, indent=1, default=str)
         self.log(f"done: obligations={cov['obligations']} discharged={cov['discharged']} "
                  f"violations={len(self.violations)} known={self.known_hits} wall={ev['wall_s']}s")
